@@ -280,11 +280,11 @@ impl<'t, 'a, 'g> Gen<'t, 'a, 'g> {
                 // length
                 if self.tape.chance(1, 2) {
                     self.tag("member:str.length");
-                    format!("{}.length", self.atom(&Ty::Str, d))
+                    format!("{}.length{}", self.atom(&Ty::Str, d), self.mark('b', &Ty::Num))
                 } else {
                     self.tag("member:arr.length");
                     let t = self.arr_elem_ty();
-                    format!("{}.length", self.atom(&Ty::Arr(Box::new(t)), d))
+                    format!("{}.length{}", self.atom(&Ty::Arr(Box::new(t)), d), self.mark('b', &Ty::Num))
                 }
             }
             6 => self.lib_call(&Ty::Num, d).unwrap_or_else(|| self.leaf(&Ty::Num)),
@@ -336,7 +336,13 @@ impl<'t, 'a, 'g> Gen<'t, 'a, 'g> {
     }
 
     /// an expression safe as a method receiver / member base (parenthesised when compound)
+    /// a receiver / operand that binds tighter than member access; carries a non-null slot (`v!.length`)
     pub fn atom(&mut self, ty: &Ty, depth: usize) -> String {
+        let a = self.atom_inner(ty, depth);
+        format!("{}{}", a, self.mark('b', ty))
+    }
+
+    fn atom_inner(&mut self, ty: &Ty, depth: usize) -> String {
         let want = ty.clone();
         if self.tape.chance(2, 3) {
             if let Some(v) = self.pick_var(|t| *t == want) {
@@ -660,13 +666,13 @@ impl<'t, 'a, 'g> Gen<'t, 'a, 'g> {
                 if self.tape.chance(1, 2) {
                     self.tag(format!("index:arr[{}]", idx));
                     let t = self.arr_elem_ty();
-                    format!("{}[{}]", self.atom(&Ty::Arr(Box::new(t)), d), idx)
+                    format!("{}[{}]{}", self.atom(&Ty::Arr(Box::new(t)), d), idx, self.mark('b', &Ty::Any))
                 } else {
                     if self.gated("str-non-ascii") {
                         // string indexing is only exact on ASCII while that finding is open
                     }
                     self.tag(format!("index:str[{}]", idx));
-                    format!("{}[{}]", self.atom(&Ty::Str, d), idx)
+                    format!("{}[{}]{}", self.atom(&Ty::Str, d), idx, self.mark('b', &Ty::Any))
                 }
             }
             4 => {
@@ -678,15 +684,15 @@ impl<'t, 'a, 'g> Gen<'t, 'a, 'g> {
                             return match self.tape.below(3) {
                                 0 => {
                                     self.tag("member:dot");
-                                    format!("{}.{}", v.name, k)
+                                    format!("{}{}.{}{}", v.name, self.mark('b', &Ty::Any), k, self.mark('b', &Ty::Any))
                                 }
                                 1 => {
                                     self.tag("member:computed");
-                                    format!("{}[\"{}\"]", v.name, k)
+                                    format!("{}{}[\"{}\"]{}", v.name, self.mark('b', &Ty::Any), k, self.mark('b', &Ty::Any))
                                 }
                                 _ => {
                                     self.tag("optional-chain:object-base");
-                                    format!("{}?.{}", v.name, k)
+                                    format!("{}{}?.{}{}", v.name, self.mark('b', &Ty::Any), k, self.mark('b', &Ty::Any))
                                 }
                             };
                         }
@@ -734,8 +740,11 @@ impl<'t, 'a, 'g> Gen<'t, 'a, 'g> {
         self.in_generator = saved_gen;
         self.scopes.pop();
         self.tag("expr:arrow");
+        // C03: half of the bodies lose their redundant outer parentheses (`=> a + b`, `=> x < y`), so that
+        // a return type annotation is directly followed by `=>` and an unparenthesised expression
+        let body = if self.cfg.ts_slots && self.tape.chance(1, 2) { strip_outer_parens(body) } else { body };
         let body = if body.starts_with('{') { format!("({})", body) } else { body };
-        format!("(({}){} => {})", names.join(", "), self.mark('r', ret), body)
+        format!("({}({}){} => {})", self.mark('w', ret), names.join(", "), self.mark('r', ret), body)
     }
 
     /// call a user function variable whose result type matches
@@ -778,7 +787,8 @@ impl<'t, 'a, 'g> Gen<'t, 'a, 'g> {
                 }
                 _ => {
                     self.tag("call:plain");
-                    format!("{}{}({})", v.name, self.mark('u', want), args.join(", "))
+                    let args: Vec<String> = args.into_iter().enumerate().map(|(k, a)| format!("{}{}", a, self.mark('A', params.get(k).unwrap_or(&Ty::Any)))).collect();
+                    format!("{}{}({}){}", v.name, self.mark('u', want), args.join(", "), self.mark('b', want))
                 }
             });
         }
@@ -819,18 +829,18 @@ impl<'t, 'a, 'g> Gen<'t, 'a, 'g> {
             0 => {
                 self.tag("class:field-read");
                 let f = &info.fields[self.tape.below(info.fields.len())];
-                format!("{}.{}", inst, f.0)
+                format!("{}{}.{}{}", inst, self.mark('b', &Ty::Any), f.0, self.mark('b', &Ty::Any))
             }
             1 => {
                 self.tag("class:method-call");
                 let m = info.methods[self.tape.below(info.methods.len())].clone();
                 let args: Vec<String> = m.1.iter().map(|t| self.expr(t, depth.min(1))).collect();
-                format!("{}.{}({})", inst, m.0, args.join(", "))
+                format!("{}{}.{}{}({}){}", inst, self.mark('b', &Ty::Any), m.0, self.mark('b', &Ty::Any), args.join(", "), self.mark('b', &Ty::Any))
             }
             2 => {
                 self.tag("class:getter-read");
                 let g = &info.getters[self.tape.below(info.getters.len())];
-                format!("{}.{}", inst, g.0)
+                format!("{}{}.{}{}", inst, self.mark('b', &Ty::Any), g.0, self.mark('b', &Ty::Any))
             }
             _ => {
                 self.tag("class:static-call");
@@ -960,9 +970,9 @@ impl<'t, 'a, 'g> Gen<'t, 'a, 'g> {
                     self.atom(&rt, depth)
                 };
                 if e.name == "size" {
-                    format!("{}.size", recv)
+                    format!("{}.size{}", recv, self.mark('b', &Ty::Num))
                 } else {
-                    format!("{}.{}({})", recv, e.name, args.join(", "))
+                    format!("{}.{}({}){}", recv, e.name, args.join(", "), self.mark('b', &Ty::Any))
                 }
             }
             _ => return None,
@@ -1108,4 +1118,48 @@ impl<'t, 'a, 'g> Gen<'t, 'a, 'g> {
         self.tag("expr:callback");
         self.arrow(&ps, ret, 1)
     }
+}
+
+/// `(inner)` -> `inner` when the parentheses enclose the whole text and `inner` can stand alone as an
+/// arrow function body (no top-level comma, not an object literal / function / class); otherwise unchanged
+fn strip_outer_parens(text: String) -> String {
+    if !text.starts_with('(') || !text.ends_with(')') || text.contains('`') {
+        return text;
+    }
+    let chars: Vec<char> = text.chars().collect();
+    let mut depth = 0i32;
+    let mut quote: Option<char> = None;
+    let mut i = 0;
+    while i < chars.len() {
+        let c = chars[i];
+        if let Some(q) = quote {
+            if c == '\\' {
+                i += 2;
+                continue;
+            }
+            if c == q {
+                quote = None;
+            }
+        } else {
+            match c {
+                '"' | '\'' => quote = Some(c),
+                '(' | '[' | '{' => depth += 1,
+                ')' | ']' | '}' => {
+                    depth -= 1;
+                    if depth == 0 && i + 1 != chars.len() {
+                        return text; // the first parenthesis closes before the end
+                    }
+                }
+                ',' if depth == 1 => return text,
+                _ => {}
+            }
+        }
+        i += 1;
+    }
+    let inner: String = chars[1..chars.len() - 1].iter().collect();
+    let t = inner.trim_start();
+    if t.starts_with('{') || t.starts_with("function") || t.starts_with("class") || t.is_empty() {
+        return text;
+    }
+    inner
 }
